@@ -184,11 +184,11 @@ impl<'a> Frame<'a> {
         R: BytesReader<'a>,
     {
         let kind = match bytes_reader.get_varint() {
-            Some(kind_id) => FrameKind::parse(kind_id).ok_or(ParseError::UnknownFrame)?,
+            Some(kind_id) => FrameKind::parse(kind_id),
             None => return Ok(None),
         };
 
-        if matches!(kind, FrameKind::WebTransport) {
+        if matches!(kind, Some(FrameKind::WebTransport)) {
             let session_id = match bytes_reader.get_varint() {
                 Some(session_id) => SessionId::try_from_varint(session_id)
                     .map_err(|InvalidSessionId| ParseError::InvalidSessionId)?,
@@ -210,6 +210,10 @@ impl<'a> Frame<'a> {
                 return Ok(None);
             };
 
+            // An unknown frame is reported only once it has been consumed as a whole
+            // (type, length and payload), so that the caller can skip it.
+            let kind = kind.ok_or(ParseError::UnknownFrame)?;
+
             Ok(Some(Self::new(kind, Cow::Borrowed(payload), None)))
         }
     }
@@ -224,9 +228,9 @@ impl<'a> Frame<'a> {
         use crate::bytes::BytesReaderAsync;
 
         let kind_id = reader.get_varint().await?;
-        let kind = FrameKind::parse(kind_id).ok_or(IoReadError::Parse(ParseError::UnknownFrame))?;
+        let kind = FrameKind::parse(kind_id);
 
-        if matches!(kind, FrameKind::WebTransport) {
+        if matches!(kind, Some(FrameKind::WebTransport)) {
             let session_id =
                 SessionId::try_from_varint(reader.get_varint().await.map_err(|e| match e {
                     bytes::IoReadError::ImmediateFin => bytes::IoReadError::UnexpectedFin,
@@ -257,6 +261,10 @@ impl<'a> Frame<'a> {
             })?;
 
             payload.shrink_to_fit();
+
+            // An unknown frame is reported only once it has been consumed as a whole
+            // (type, length and payload), so that the caller can skip it.
+            let kind = kind.ok_or(IoReadError::Parse(ParseError::UnknownFrame))?;
 
             Ok(Self::new(kind, Cow::Owned(payload), None))
         }
